@@ -86,7 +86,7 @@ func c15Tok(i int) string { return fmt.Sprintf("zzsess%dsesszz", i) }
 
 func c15Spec(n int) world.Spec {
 	// ErrorURL is configured as a path (emitted verbatim: the same for every tenant)
-	spec := world.Spec{IdP: world.IdPConfig{IssuerMode: "host", IssuerPath: "/saml", SignatureAlgorithm: world.AlgRSASHA256, MetadataSigAlg: world.AlgRSASHA256, ErrorURL: "/ui/error"}}
+	spec := world.Spec{IdP: world.IdPConfig{IssuerMode: "host", IssuerPath: "/saml", SignatureAlgorithm: world.AlgRSASHA256, MetadataSigAlg: world.AlgRSASHA256, ErrorURL: "/ui/error"}, KeysPerIssuer: true}
 	for i := 0; i < n; i++ {
 		tk := c15Tok(i)
 		sp := world.SPSpec{
@@ -136,12 +136,12 @@ func c15Seed(spec *world.Spec, n int, sharedIDs bool) {
 }
 
 // c15VerifyAssertion: an assertion that left under concurrency verifies like any other (own verifier and goxmldsig agree).
-func c15VerifyAssertion(cc *c15Collect, i int, op string, d *obs.Decoded, a *obs.AssertionInfo) {
+func c15VerifyAssertion(cc *c15Collect, i int, op string, d *obs.Decoded, a *obs.AssertionInfo, key *world.KeyPair) {
 	if a == nil || a.Node == nil || a.Node.Child(world.NSDS, "Signature") == nil {
 		return // unsigned assertions are C04's (redirect replies sign the query string)
 	}
 	stats := map[string]int{}
-	if v := verifyEnvelopedOnWire("assertion under concurrency", d.XML, a.Node, world.Key("idp-response").CertB64(), stats); v != nil {
+	if v := verifyEnvelopedOnWire("assertion under concurrency", d.XML, a.Node, key.CertB64(), stats); v != nil {
 		cc.add(ev.V("C15/assertion-signature-does-not-verify", "client %d %s: %s", i, op, v.What))
 	}
 }
@@ -257,6 +257,11 @@ func c15ClientOpt(w *world.World, spec world.Spec, i int, ops []string, yield in
 	user := spec.Users[sess]
 	entity := spec.IdP.EntityID(host)
 	do := c15DoOpt(w, cc, sess, host, yield, mk)
+	// the storage keeps one response-signing key per issuer: what this session sees signed and published is its own issuer's
+	ownKey := world.Key("idp-response")
+	if spec.KeysPerIssuer {
+		ownKey = world.Key(world.ResponseKeyFor(spec.IdP.ExpectedIssuer(host)))
+	}
 	wr := func(n *xt.Node) []byte { return xt.Write(n, plainStyle.W) }
 	for k, op := range ops {
 		reqID := fmt.Sprintf("_req%s-%d", tk, k)
@@ -383,7 +388,7 @@ func c15ClientOpt(w *world.World, spec world.Spec, i int, ops []string, yield in
 			}
 			if len(vs) == 0 && d3 != nil && d3.Doc != nil {
 				if r3 := obs.ReadResponse(obs.FindResponse(d3.Root())); r3 != nil && r3.Success() && len(r3.Assertions) == 1 {
-					c15VerifyAssertion(cc, i, op, d3, r3.Assertions[0])
+					c15VerifyAssertion(cc, i, op, d3, r3.Assertions[0], ownKey)
 				}
 			}
 		case "logout":
@@ -427,7 +432,7 @@ func c15ClientOpt(w *world.World, spec world.Spec, i int, ops []string, yield in
 			if r.InResponseTo != reqID || r.Issuer != entity || a.NameID != user.Username || len(a.Audiences) != 1 || a.Audiences[0] != sp.EntityID || attrMultisetDiff(expectedAttrs(user), a.Attrs) != "" {
 				cc.add(ev.V("C15/attrquery-response-mixed-up", "client %d: InResponseTo %q Issuer %q NameID %q Audience %v", i, r.InResponseTo, r.Issuer, a.NameID, a.Audiences))
 			}
-			c15VerifyAssertion(cc, i, op, d, r.Assertions[0])
+			c15VerifyAssertion(cc, i, op, d, r.Assertions[0], ownKey)
 		case "metadata":
 			rep, _, _ := do(op, obs.HTTPReq{Method: "GET", Path: spec.IdP.Route("metadata")})
 			doc, err := xt.Parse(rep.Body)
@@ -438,6 +443,15 @@ func c15ClientOpt(w *world.World, spec world.Spec, i int, ops []string, yield in
 			if id := doc.Root.AttrV("entityID"); id != entity {
 				cc.add(ev.V("C15/metadata-issuer-mixed-up", "client %d: entityID %q, own %q", i, id, entity))
 			}
+			for _, kd := range doc.Root.FindAll(world.NSMD, "KeyDescriptor") {
+				if u := kd.AttrV("use"); u == "signing" || u == "" {
+					for _, x := range kd.FindAll(world.NSDS, "X509Certificate") {
+						if strings.Join(strings.Fields(x.Text()), "") != ownKey.CertB64() {
+							cc.add(ev.V("C15/metadata-announces-another-issuers-key", "client %d: the metadata for %s announces a signing certificate that is not the one of this issuer's key", i, host))
+						}
+					}
+				}
+			}
 			doc.Root.Walk(func(n *xt.Node) {
 				if n.Space == world.NSMD {
 					if id, ok := n.Attr("ID"); ok {
@@ -447,7 +461,7 @@ func c15ClientOpt(w *world.World, spec world.Spec, i int, ops []string, yield in
 			})
 		case "certificate":
 			rep, _, _ := do(op, obs.HTTPReq{Method: "GET", Path: spec.IdP.Route("certificate")})
-			if blk, _ := pem.Decode(rep.Body); obs.Decode(rep).Kind != obs.KindPEM || blk == nil || !bytes.Equal(blk.Bytes, world.Key("idp-response").CertDER) {
+			if blk, _ := pem.Decode(rep.Body); obs.Decode(rep).Kind != obs.KindPEM || blk == nil || !bytes.Equal(blk.Bytes, ownKey.CertDER) {
 				cc.add(ev.V("C15/certificate-reply", "client %d: status %d, body is not the PEM of the response-signing certificate: %s", i, rep.Status, short(string(rep.Body), 80)))
 			}
 		}
